@@ -313,6 +313,72 @@ pub fn run(ctx: &Ctx) {
     let all = DrawOpts { signers: zoo::ALL_SIGNERS, recipients: zoo::ALL_RECIPIENTS, max_chunk_exp: 20, allow_file: true, allow_big_aead_chunks: true };
     let n = ctx.tier.pick(1_200u64, 25_000);
     ctx.group("all-algorithms-large-chunks", Source::Random { n, tape_len: 256 }, |t, rec| one_case(t, rec, &all, if thorough { 3 << 20 } else { 300_000 }));
+    // systematic sweep: every payload length in a window below each internal buffer / chunk
+    // boundary, so that for every base configuration some length makes the *inner* stream
+    // (payload + literal/OPS/signature/compression framing) end exactly on the boundary
+    let sweep_cfgs: Vec<MsgConfig> = {
+        use pgp::crypto::aead::AeadAlgorithm as A;
+        use pgp::crypto::sym::SymmetricKeyAlgorithm as S;
+        let mut encs = vec![Enc::None, Enc::V1(S::AES128), Enc::V1(S::CAST5), Enc::V2(S::AES128, A::Ocb, 6), Enc::V2(S::AES256, A::Gcm, 7)];
+        if thorough {
+            for c in msg::CIPHERS {
+                encs.push(Enc::V1(c));
+            }
+            encs.extend([Enc::V2(S::AES192, A::Eax, 6), Enc::V2(S::AES128, A::Eax, 7), Enc::V2(S::AES128, A::Ocb, 0), Enc::V2(S::AES128, A::Gcm, 3)]);
+        }
+        let mut v = vec![];
+        let mut seed = 90u8;
+        for enc in encs {
+            for reader in [false, true] {
+                for signed in [false, true] {
+                    for comp in [None, Some(CompressionAlgorithm::Uncompressed)] {
+                        let mut c = MsgConfig::plain();
+                        c.enc = enc;
+                        c.src = if reader { SrcKind::Reader(Sched::fixed(3000)) } else { SrcKind::Bytes };
+                        c.chunk = 1024;
+                        c.compression = comp;
+                        if signed {
+                            c.signers = vec![(zoo::Kind::Ed25519V4, pgp::crypto::hash::HashAlgorithm::Sha256)];
+                        }
+                        c.seed = [seed; 32];
+                        seed = seed.wrapping_add(1);
+                        v.push(c);
+                    }
+                }
+            }
+        }
+        v
+    };
+    let windows: Vec<(usize, usize)> = {
+        // (boundary, how far below it to start)
+        let mut w = vec![(8192usize, 200usize), (16384, 200), (1024, 48), (2048, 48), (3072, 48), (4096, 200)];
+        if thorough {
+            w.extend([(24576, 200), (32768, 200), (5120, 48), (12288, 200)]);
+        }
+        w
+    };
+    let per_cfg: usize = windows.iter().map(|(_, below)| below + 9).sum();
+    ctx.note("boundary_sweep", serde_json::json!(format!("{} base configurations x every payload length in [B-below, B+8] for (B, below) in {:?}", sweep_cfgs.len(), windows)));
+    ctx.group("boundary-length-sweep", Source::Indexed { count: (sweep_cfgs.len() * per_cfg) as u64 }, |t, rec| {
+        let idx = t.u64() as usize;
+        let cfg = &sweep_cfgs[idx / per_cfg];
+        let mut r = idx % per_cfg;
+        let mut len = 0usize;
+        for (b, below) in &windows {
+            if r < below + 9 {
+                len = b - below + r;
+                break;
+            }
+            r -= below + 9;
+        }
+        let payload = expand(len as u64 ^ 0xABCD, len);
+        rec.label("sweep");
+        rec.nontrivial((idx / per_cfg, len));
+        rec.describe(|| format!("len={len} {}", cfg.describe()));
+        let sub = expand(ctx.seed ^ (idx as u64).wrapping_mul(0x9E3779B97F4A7C15), 64);
+        let mut t2 = Tape::new(&sub);
+        roundtrip(&mut t2, rec, cfg, &payload)
+    });
     let n = ctx.tier.pick(1_500u64, 20_000);
     ctx.group("utf8-mode-rejects-nonconforming", Source::Random { n, tape_len: 64 }, utf8_negative);
     if thorough {
